@@ -417,9 +417,9 @@ class SelectWith(Statement):
     def write(self, scope) -> TextBlock:
         if self._default is None:
             assert len(self._branches) != 0
-            separators = "," * (len(self._branches) - 1) + ";"
-        else:
-            separators = "," * len(self._branches)
+
+        # the choices must cover every value of the selector (incl. metavalues)
+        separators = "," * len(self._branches)
 
         assert isinstance(self._arg, Value)
 
@@ -449,6 +449,7 @@ class SelectWith(Statement):
                             for default in [self._default]
                             if default is not None
                         ],
+                        *(["unaffected when others;"] if self._default is None else []),
                     ],
                 ),
             ],
